@@ -182,3 +182,64 @@ func solveAll(units []*Unit, cfg *SolverCfg) {
 	}
 	wg.Wait()
 }
+
+// retryUndecided re-runs obligations that no solver decided with a portfolio of random
+// seeds and a longer timeout (timing of SMT solvers varies with seed and machine load; a
+// proof found under any seed is a proof).
+func retryUndecided(units []*Unit, cfg *SolverCfg, timeoutS int) int {
+	type job struct {
+		u  *Unit
+		ob *Obligation
+	}
+	var jobs []job
+	for _, u := range units {
+		for _, ob := range u.em.obls {
+			if ob.Kind != "vacuity" && (ob.Result == "timeout" || ob.Result == "unknown") && ob.File != "" {
+				jobs = append(jobs, job{u, ob})
+			}
+		}
+	}
+	if len(jobs) == 0 {
+		return 0
+	}
+	sem := make(chan struct{}, 2)
+	var wg sync.WaitGroup
+	for _, j := range jobs {
+		wg.Add(1)
+		sem <- struct{}{}
+		go func(j job) {
+			defer wg.Done()
+			defer func() { <-sem }()
+			ctx, cancel := context.WithTimeout(context.Background(), time.Duration(timeoutS+2)*time.Second)
+			defer cancel()
+			type cand struct {
+				solver string
+				seed   int
+			}
+			var cands []cand
+			for k := 1; k <= 3; k++ {
+				cands = append(cands, cand{"z3new", cfg.Seed + 17*k}, cand{"z3", cfg.Seed + 17*k})
+			}
+			cands = append(cands, cand{"cvc5", cfg.Seed + 1})
+			ch := make(chan solveResult, len(cands))
+			for _, c := range cands {
+				go func(c cand) { ch <- runSolver(ctx, c.solver, j.ob.File, timeoutS, c.seed) }(c)
+			}
+			for range cands {
+				r := <-ch
+				if r.res == "unsat" || r.res == "sat" {
+					j.ob.Result = r.res
+					j.ob.Solver = r.solver + "(retry)"
+					j.ob.Ms = r.ms
+					if r.res == "sat" {
+						j.ob.Model = r.out
+					}
+					cancel()
+					break
+				}
+			}
+		}(j)
+	}
+	wg.Wait()
+	return len(jobs)
+}
